@@ -67,7 +67,10 @@ func c02Wait(in *Inst, d time.Duration) bool {
 }
 
 // script ops: "w" short wait, "W" long wait, "a<i>" answer task i, "c" three concurrent long waiters + one short
-func c02Run(k int, script []string, forceWindow bool) c02Obs {
+func c02Run(k int, script []string, forceWindow bool) c02Obs { return c02RunMode(k, script, forceWindow, false) }
+
+// concurrentStart: every start event is started with StartWith from its own goroutine, all released together
+func c02RunMode(k int, script []string, forceWindow bool, concurrentStart bool) c02Obs {
 	obs := c02Obs{}
 	defs, err := ParseDefs(c02Prog(k).XML(""))
 	must(err)
@@ -90,7 +93,32 @@ func c02Run(k int, script []string, forceWindow bool) c02Obs {
 		atomic.StoreInt32(&dt.armed, 1)
 	}
 	started := make(chan error, 1)
-	go func() { started <- in.P.StartAll(in.Ctx) }()
+	if concurrentStart {
+		go func() {
+			var wg sync.WaitGroup
+			gate := make(chan struct{})
+			var firstErr error
+			var emu sync.Mutex
+			ses := in.P.Element().StartEvents()
+			for i := range *ses {
+				wg.Add(1)
+				go func(i int) {
+					defer wg.Done()
+					<-gate
+					if err := in.P.StartWith(in.Ctx, &(*ses)[i]); err != nil {
+						emu.Lock()
+						firstErr = err
+						emu.Unlock()
+					}
+				}(i)
+			}
+			close(gate)
+			wg.Wait()
+			started <- firstErr
+		}()
+	} else {
+		go func() { started <- in.P.StartAll(in.Ctx) }()
+	}
 	select {
 	case err := <-started:
 		obs.startOK = err == nil
@@ -186,13 +214,15 @@ func runC02(env *Env) {
 		Rule: "processes with 1..3 start events (each start -> task -> end): scripts interleaving task answers (every order for k<=3) with WaitUntilComplete calls (short-timeout waits while tasks are pending, repeated waits, waits after a timed-out one, 3 concurrent waiters plus one short one), and a tracer wrapper that delays RegisterSender until a trace has been broadcast (forces the start/subscription window); also C03 loop programs with waits between answers; non-trivial = more than one start event or more than one wait; distinct by script"}
 	rng := rand.New(rand.NewSource(env.Seed))
 	var items []string
-	run := func(k int, script []string, force bool) {
+	var run func(k int, script []string, force bool)
+	concStart := false
+	run = func(k int, script []string, force bool) {
 		if rep.Saturated() {
 			return
 		}
-		cs := fmt.Sprintf("k=%d start events, script=%v, forced-window=%v", k, script, force)
+		cs := fmt.Sprintf("k=%d start events, script=%v, forced-window=%v, concurrent-StartWith=%v", k, script, force, concStart)
 		env.Current(cs)
-		o := c02Run(k, script, force)
+		o := c02RunMode(k, script, force, concStart)
 		rep.Evaluations++
 		rep.Count(fmt.Sprintf("k%d_force%v", k, force))
 		if k > 1 || len(o.waits) > 1 {
@@ -266,6 +296,19 @@ func runC02(env *Env) {
 		}(), "W"), true)
 		run(k, []string{"w", "a0"}, true) // incomplete: no cease
 	}
+	// every start event started by its own goroutine through StartWith, with the forced window
+	concStart = true
+	for k := 2; k <= 3; k++ {
+		for r := 0; r < 3; r++ {
+			s := []string{}
+			for i := 0; i < k; i++ {
+				s = append(s, fmt.Sprintf("a%d", i))
+			}
+			run(k, append(s, "W"), true)
+			run(k, append(s, "W"), false)
+		}
+	}
+	concStart = false
 	// repetitions of the bare start/complete cycle: natural schedules of the start-up window
 	reps := 60
 	if env.Thorough() {
